@@ -1,10 +1,28 @@
 /- C09 — Numbers are IEEE-754 doubles with checked range and coherent comparison.
    Property theorems only (helper lemmas live in Proofs/Num.lean). -/
 import JrsVerif.Proofs.Num
+import JrsVerif.Proofs.NumCodec
 
 set_option exponentiation.threshold 4096
 
 namespace JrsVerif.Num
+
+/-! ### 0. the value representation loses nothing -/
+
+/-- C09.0a every finite 64-bit pattern decodes to a model value that encodes back to exactly that
+    pattern: the exact-value model the other theorems speak about is a faithful image of `f64` -/
+theorem bits_roundtrip (b : Nat) (hb : b < 2 ^ 64) (d : D) (h : decode b = some d) :
+    encode d = some b := encode_decode b hb d h
+
+/-- C09.0b `==` identifies two finite doubles exactly when they are the same bit pattern or both
+    zeros: comparison is coherent with identity of values, not only with the order -/
+theorem eq_on_bits (b₁ b₂ : Nat) (h₁ : b₁ < 2 ^ 64) (h₂ : b₂ < 2 ^ 64) (d₁ d₂ : D)
+    (e₁ : decode b₁ = some d₁) (e₂ : decode b₂ = some d₂) :
+    opEq d₁ d₂ = true ↔ (b₁ = b₂ ∨ (isZeroBits b₁ = true ∧ isZeroBits b₂ = true)) :=
+  opEq_iff_bits b₁ b₂ h₁ h₂ d₁ d₂ e₁ e₂
+
+/-- premises satisfiable: `+0` and `-0` are different patterns, equal numbers -/
+example : (decode 0).isSome ∧ (decode (2 ^ 63)).isSome ∧ isZeroBits (2 ^ 63) = true := by decide
 
 /-! ### 1. coherent comparison -/
 
